@@ -238,4 +238,44 @@ example :
       = .ok (.coord false (.fin { neg := false, mant := 45, exp := 0 }) (.fin { neg := false, mant := 305, exp := -1 })) := by
   decide
 
+/-! ### finite decimal numerals (floats written without exponent) -/
+
+/-- **finite decimal numerals**: `[-]digits.digits` (what Python writes for a float without exponent, e.g.
+`-12.5`, `100.0`, `0.001`) reads back, in every literal context (all ten converters), as the float whose
+exact value is that decimal. -/
+theorem C17_roundtrip_decimal (neg : Bool) (a : Nat) (ds : Str) (hds : ∀ c ∈ ds, isDigit c = true) :
+    convert2Num (showDec neg a ds) = .ok (.float (decValue neg a ds)) ∧
+    convert2CoordNum (showDec neg a ds) = .ok (.float (decValue neg a ds)) ∧
+    convert2BoolCoordNum (showDec neg a ds) = .ok (.float (decValue neg a ds)) ∧
+    convert2StrBoolCoordNum (showDec neg a ds) = .ok (.float (decValue neg a ds)) ∧
+    convert2PointNum (showDec neg a ds) = .ok (.float (decValue neg a ds)) ∧
+    convert2CoordPointNum (showDec neg a ds) = .ok (.float (decValue neg a ds)) ∧
+    convert2BoolCoordPointNum (showDec neg a ds) = .ok (.float (decValue neg a ds)) ∧
+    convert2PathCoordPointNum (showDec neg a ds) = .ok (.float (decValue neg a ds)) ∧
+    convert2BoolPathCoordPointNum (showDec neg a ds) = .ok (.float (decValue neg a ds)) ∧
+    convert2StrBoolPathCoordPointNum (showDec neg a ds) = .ok (.float (decValue neg a ds)) := by
+  have sub : ∀ (pre : List Recog), (∀ r ∈ pre, r ∈ ordStr ++ ordBool ++ ordPath ++ ordCoord ++ ordPoint) →
+      firstOf (pre ++ ordNum) (showDec neg a ds) = .ok (.float (decValue neg a ds)) :=
+    fun pre h => firstOf_showDec h neg a ds hds
+  refine ⟨?_, ?_, ?_, ?_, ?_, ?_, ?_, ?_, ?_, ?_⟩
+  · rw [order_num]; exact sub [] (by simp)
+  · rw [order_coordNum]; exact sub _ (by intro r hr; simp only [List.mem_append]; simp [hr])
+  · rw [order_boolCoordNum]; exact sub _ (by
+      intro r hr; simp only [List.mem_append] at hr ⊢; rcases hr with h | h <;> simp [h])
+  · rw [order_goal]; unfold orderGoal; exact sub _ (by
+      intro r hr; simp only [List.mem_append] at hr ⊢; rcases hr with (h | h) | h <;> simp [h])
+  · rw [order_pointNum]; exact sub _ (by intro r hr; simp only [List.mem_append]; simp [hr])
+  · rw [order_coordPointNum]; exact sub _ (by
+      intro r hr; simp only [List.mem_append] at hr ⊢; rcases hr with h | h <;> simp [h])
+  · rw [order_boolCoordPointNum]; exact sub _ (by
+      intro r hr; simp only [List.mem_append] at hr ⊢; rcases hr with (h | h) | h <;> simp [h])
+  · rw [order_pathCoordPointNum]; exact sub _ (by
+      intro r hr; simp only [List.mem_append] at hr ⊢; rcases hr with (h | h) | h <;> simp [h])
+  · rw [order_boolPathCoordPointNum]; exact sub _ (by
+      intro r hr; simp only [List.mem_append] at hr ⊢; rcases hr with ((h | h) | h) | h <;> simp [h])
+  · rw [order_direct]; unfold orderDirect; exact sub _ (by intro r hr; exact hr)
+
+example : showDec true 12 "50".toList = "-12.50".toList ∧
+    decValue true 12 "50".toList = .fin { neg := true, mant := 1250, exp := -2 } := by decide +kernel
+
 end Ioflo.Literal
